@@ -28,6 +28,9 @@ def known_findings(pid):
     return [e for e in kf["findings"] if e["property"] == pid]
 
 
+_PROCS, _STOP = [], []     # development aid VF_FAILFAST=1: stop at the first reproduced violation (used by the seed matrix only)
+
+
 RE_LINE = re.compile(r"^(?P<file>[^:]+):(?P<line>\d+): (?P<kind>error|info|warning): (?P<msg>.*)$")
 
 
@@ -47,11 +50,17 @@ def run_crosshair(fn, line, env, timeout, path_timeout, unblock, scratch):
         cmd += ["--unblock", "EVERYTHING"]
     cmd += ["--", f"{fn}:{line}"]
     t0 = time.time()
+    if _STOP:
+        return dict(verdict="inconclusive", msg="skipped (fail-fast)", call=None, stats={}, wall=0.0, rc=None, err="")
+    p = subprocess.Popen(cmd, env=e, stdout=subprocess.PIPE, stderr=subprocess.PIPE, text=True, cwd=HERE)
+    _PROCS.append(p)
     try:
-        p = subprocess.run(cmd, env=e, capture_output=True, text=True, timeout=timeout * 3 + 120, cwd=HERE)
-        out, err, rc = p.stdout, p.stderr, p.returncode
-    except subprocess.TimeoutExpired as ex:
-        out, err, rc = (ex.stdout or b"").decode() if isinstance(ex.stdout, bytes) else (ex.stdout or ""), "wall timeout", 124
+        out, err = p.communicate(timeout=timeout * 3 + 120)
+        rc = p.returncode
+    except subprocess.TimeoutExpired:
+        p.kill()
+        out, err = p.communicate()
+        out, err, rc = out or "", "wall timeout", 124
     wall = time.time() - t0
     stats = {}
     for ln in (err or "").splitlines():
@@ -165,6 +174,13 @@ def check(a):
             res = fu.result()
             res.update(harness=t[0]["name"], role=t[1], label=t[6], env=t[2])
             results.append(res)
+            if os.environ.get("VF_FAILFAST") and not _STOP and t[1] == "main" and res["verdict"] == "cex":
+                rc_, _o = replay_call(pid, res["call"], {k: v for k, v in res["env"].items() if k.startswith("VF_KF") or k.startswith("VFH_")})
+                if rc_ == 1:
+                    _STOP.append(1)
+                    for p_ in _PROCS:
+                        if p_.poll() is None:
+                            p_.kill()
             print(f"  [{res['verdict']:12s}] {t[6]:55s} paths={res['stats'].get('paths', '?')} reached={res['stats'].get('reached', '?')} "
                   f"queries={res['stats'].get('queries', '?')} {res['wall']:.1f}s", flush=True)
 
